@@ -632,6 +632,10 @@ class Envelope:
                 operators, *states, destructive=destructive
             )
 
+        # The members of an uncombined envelope can be at different levels
+        if len(states) == 2 and self.state is None:
+            self.combine()
+
         # Expand to matrix state if not alreay in it
         assert isinstance(self.expansion_level, ExpansionLevel)
         while self.expansion_level < ExpansionLevel.Matrix:
@@ -639,9 +643,6 @@ class Envelope:
 
         self.reorder(*states)
         C = Config()
-
-        if len(states) == 2 and self.state is None:
-            self.combine()
 
         reshape_shape = [-1, -1]
         assert isinstance(self.fock.index, int) and isinstance(
